@@ -155,13 +155,15 @@ class EVQEIndividual(BaseIndividual):
         new_layers: list[EVQECircuitLayer] = []
         random_generator = Random(random_seed)
 
+        previous_layer: EVQECircuitLayer = individual.layers[-1]
         for _ in range(0, n_layers):
             layer = EVQECircuitLayer.random_layer(
                 n_qubits=individual.layers[0].n_qubits,
                 random_seed=new_random_seed(random_generator),
-                previous_layer=individual.layers[-1],
+                previous_layer=previous_layer,
             )
             new_layers.append(layer)
+            previous_layer = layer
 
         all_layers: tuple[EVQECircuitLayer, ...] = (*individual.layers, *new_layers)
 
